@@ -1295,11 +1295,17 @@ impl<'a, 'b, W: Write> Serializer for &'a mut YamlSerializer<'b, W> {
         match name {
             NAME_FLOW_SEQ => {
                 self.pending_flow = Some(PendingFlow::AnySeq);
-                return value.serialize(self);
+                let result = value.serialize(&mut *self);
+                // A hint that the wrapped value did not use (it is no collection, e.g. `None`)
+                // ends with that value instead of leaking to the next collection.
+                self.pending_flow = None;
+                return result;
             }
             NAME_FLOW_MAP => {
                 self.pending_flow = Some(PendingFlow::AnyMap);
-                return value.serialize(self);
+                let result = value.serialize(&mut *self);
+                self.pending_flow = None;
+                return result;
             }
             NAME_LIT_STR => {
                 // Always use literal block style for LitStr/LitString wrappers.
